@@ -2,7 +2,35 @@
 from . import ssa, C01, C08
 
 
+def replay_array_sum(spec):
+    """py_array_sum / py_sample_discrete of the real build for many lengths, and the consequence for a network with that many reactions:
+    the last reaction of a chain is the only way into the last species"""
+    import numpy as np
+    from bioscrape.random import py_array_sum, py_sample_discrete, py_seed_random, py_uniform_rv
+    bad = []
+    for n in sorted(set(list(range(0, 41)) + [int(spec.get("n", 0)), 64, 65, 100, 129])):
+        data = np.arange(1, n + 1, dtype=float) * 0.5
+        got = py_array_sum(data, n)
+        if abs(got - data.sum()) > 1e-9:
+            bad.append("py_array_sum over %d numbers gives %r, their sum is %r" % (n, got, float(data.sum())))
+        if 0 < n <= 40:
+            for seed in (1, 2, 3):
+                py_seed_random(seed)
+                j = py_sample_discrete(n, data.copy(), float(data.sum()))
+                py_seed_random(seed)
+                q = py_uniform_rv() * float(data.sum())
+                want = int(np.searchsorted(np.cumsum(data), q, side="left"))
+                if j != want:
+                    bad.append("py_sample_discrete among %d weights returns %d, the scan of the cumulative sums on the same draw gives %d" % (n, j, want))
+                    break
+        if len(bad) >= 3:
+            break
+    return {"reproduced": bool(bad), "observed": bad[:3], "expected": "Lambda = sum of all propensities; reaction j chosen with probability a_j / Lambda"}
+
+
 def replay(spec):
+    if spec.get("kind") == "array_sum":
+        return replay_array_sum(spec)
     if spec.get("kind") in ("massaction", "hill"):
         return C01.replay(spec)
     if spec.get("kind") == "follow":
